@@ -52,10 +52,11 @@ func deriveOps(tag string) []vlog.ChainOp {
 		{Group: "g"},
 		{Group: "h"},
 		{Attrs: []*vlog.Node{{Kind: vlog.NLVGroup, Key: "", Kids: nil}, leaf("z"+tag, "float-1.5")}},
+		{Group: "a-group-name-longer-than-any-small-scratch-buffer"}, // 49 bytes
 	}
 }
 
-const nDerive = 6
+const nDerive = 7
 
 var probeCall = []*vlog.Node{leaf("p", "str"), {Kind: vlog.NGroup, Key: "pg", Kids: []*vlog.Node{leaf("q", "int64-min")}}}
 
@@ -364,7 +365,7 @@ func main() {
 	cov["samples"] = append(cov["samples"].([]any), map[string]any{"derivation_history": searches[2].Sample})
 	code, n := vcommon.Report("C03", viols)
 	vcommon.WriteEvidence(&vcommon.Evidence{PropertyID: "C03", Level: "model_checking", Coverage: cov, Violations: n, Assumptions: []string{
-		"derivation alphabet: With(1 attr), With(3 attrs), With(group attr), WithGroup(g), WithGroup(h), With(empty inline LogValuer group + attr); trees of at most 5 loggers",
+		"derivation alphabet: With(1 attr), With(3 attrs), With(group attr), WithGroup(g), WithGroup(h), With(empty inline LogValuer group + attr), WithGroup(49-byte name); trees of at most 5 loggers",
 		"after every derivation every existing logger is probed (i.e. logs a record), so derive/log orders on different nodes are covered",
 		"non-trivial = histories in which a parent whose rendered buffer has spare capacity has two or more children (the aliasing precondition), counted reflectively",
 	}})
